@@ -39,10 +39,14 @@ type c15Model struct {
 	TopKept  map[string]bool
 	// WildDotCleaned: source "dir/." with AllowWildcards (see c15Overlay)
 	WildDotCleaned bool
-	Events         []string // collisions seen, e.g. "f>l:replace"
-	src            *tree.Tree
-	srcRoot        tree.Entry
-	always         bool
+	// wildcard source onto something that is not an existing directory,
+	// modelled as the sequence of its matches
+	SeqOntoNonDir, SeqDstMissing, FirstMatchDir bool
+	NMatches                                    int
+	Events                                      []string // collisions seen, e.g. "f>l:replace"
+	src                                         *tree.Tree
+	srcRoot                                     tree.Entry
+	always                                      bool
 }
 
 func (m *c15Model) mkdirAll(p string) bool {
@@ -247,11 +251,19 @@ func c15Overlay(src *tree.Tree, srcRoot tree.Entry, dst *tree.Tree, srcArg, dstA
 				m.Any = "wildcard without matches (the statement does not say)"
 				return m
 			}
-			// rule 6
+			// rule 6, read as the statement has it: a wildcard source is the
+			// union of its matches, i.e. the single-source copies applied in
+			// match order, each one looking again at what dst is by then.
+			// That reading is unambiguous also when dst is not (yet) a
+			// directory; the only thing it cannot decide here is a dst that
+			// an earlier match turned into a symlink (resolution of symlinks
+			// in arguments is C14's business) - handled in the loop below.
 			if re := m.T.Get(R); R != "" && (re == nil || re.Type != tree.Dir) {
-				m.Any = "rule 6: wildcard source onto something that is not an existing directory"
-				return m
+				m.SeqOntoNonDir = true
+				m.SeqDstMissing = re == nil
 			}
+			m.NMatches = len(ms)
+			m.FirstMatchDir = m.srcEntry(ms[0]).Type == tree.Dir
 			srcs = ms
 		} else {
 			// calibrated: with wildcards allowed the source argument is
@@ -282,6 +294,9 @@ func c15Overlay(src *tree.Tree, srcRoot tree.Entry, dst *tree.Tree, srcArg, dstA
 		}
 		if re != nil && re.Type == tree.Symlink {
 			m.Any = "destination argument is a symlink (C14)"
+			if len(m.Landings) > 0 {
+				m.Any = "an earlier wildcard match left a symlink at dst; where later matches go depends on symlink resolution (C14)"
+			}
 			return m
 		}
 		// rule 2
@@ -314,7 +329,7 @@ func init() {
 		Level: "exploration",
 		Rule: "source and destination trees (<=14 entries each, depth<=3) are generated independently over the shared names {a,b,ab,c,d,e}; source types f,d,l,fifo,char, destination additionally sockets, so every (source type, destination type) pair collides. " +
 			"src argument: a source entry, the root ('.', '/', '/.', ''), 'dir/.', or a wildcard ('*','a*','?','[a-c]*','dir/*','*/a'); dst argument: existing directory / non-directory, new name, nested not-yet-existing 'n1/n2', the root, a path below a non-directory; optional leading and trailing separator; flags = random subset of {CopyDirContents, AlwaysReplace, AllowWildcards}. No argument traverses a symlink (C14 does that). " +
-			"fs.Copy runs on disk in a chroot jail and is compared with the executable overlay model (rules 1-7 of DESIGN C15): expected success => snapshot equals the model in paths, types, bytes, targets, rdev, mode/owner (not for directories made only for the path; an existing top-level landing directory keeps its own) and xattrs (nested merged directories: source's added, old ones may stay), unrelated entries keep inode and bytes; expected error => the call fails and the obstacle (with its subtree) keeps inode, type, bytes. Where the rules do not predict (wildcard onto a non-directory, no matches) any outcome is accepted and counted. " +
+			"fs.Copy runs on disk in a chroot jail and is compared with the executable overlay model (rules 1-7 of DESIGN C15): expected success => snapshot equals the model in paths, types, bytes, targets, rdev, mode/owner (not for directories made only for the path; an existing top-level landing directory keeps its own) and xattrs (nested merged directories: source's added, old ones may stay), unrelated entries keep inode and bytes; expected error => the call fails and the obstacle (with its subtree) keeps inode, type, bytes. A wildcard source is modelled as the sequence of single-source copies of its matches in walk order, each one re-evaluating whether dst exists and is a directory (also when dst does not exist yet or is a non-directory: the first match creates/replaces it, the later ones meet the result); one case in seven is drawn for exactly that: a pattern with >=2 matches whose first match is a directory (the lexically first source entry is turned into a directory in two thirds of them) onto a not-yet-existing plain or nested dst. Any outcome is accepted (and counted by reason) only for: a wildcard without matches, a wildcard prefix that is not a plain directory, and a dst that is a symlink or that an earlier match of the same call turned into a symlink (where later matches go is symlink resolution, C14). " +
 			"Every successful copy is repeated: the second run is checked against the model applied to the first result, and when the landing path is the same the two snapshots must agree in everything but inode/ctime/atime and the mtime of proper ancestors of the landing path. " +
 			"non-trivial = at least one source entry met an existing destination entry (merge, replace or conflict) or the destination path met a non-directory; distinct by (trees, arguments, flags) fingerprint",
 		Assumptions: []string{
@@ -467,6 +482,7 @@ func c15Check(r *core.Result, pre string, ctx string, m *c15Model, before, got *
 	if m.Any != "" {
 		r.Count(pre+"model_accepts_any_outcome", 1)
 		r.AddSet("any_outcome_reasons", m.Any)
+		r.Count(pre+"accept_any["+m.Any+"]", 1)
 		return
 	}
 	if m.Err {
@@ -609,6 +625,22 @@ func c15Run(c *core.Ctx) *core.Result {
 	if c.R.P(1, 12) {
 		dstT = &tree.Tree{} // empty destination
 	}
+	// a fixed share of cases: wildcard with several matches, the first of
+	// them a directory, onto a destination that does not exist yet - the
+	// first match creates dst and the later ones meet it
+	seqMode := c.R.P(1, 7)
+	if seqMode && c.R.P(2, 3) && len(srcT.Entries) > 0 {
+		// make the lexically first top-level source entry a directory
+		first := &srcT.Entries[0]
+		if first.Type != tree.Dir && !strings.Contains(first.Path, "/") {
+			first.Type, first.Data, first.Target, first.Major, first.Minor = tree.Dir, nil, "", 0, 0
+			first.Perm = core.Pick(c.R, []uint32{0755, 0700, 0750})
+			first.Xattrs = nil
+			kid := tree.Entry{Path: first.Path + "/" + core.Pick(c.R, c15Names), Type: tree.File, Perm: 0644, Mtime: 1_400_000_000_000_000_000, Data: []byte("src:seq-kid")}
+			srcT.Entries = append(srcT.Entries, kid)
+			srcT.Sort()
+		}
+	}
 	if err := tree.Materialise(srcRoot, srcT); err != nil {
 		r.Inconclusive = "materialise src: " + err.Error()
 		return r
@@ -626,6 +658,9 @@ func c15Run(c *core.Ctx) *core.Result {
 	var fl cpFlags
 	fl.CDC, fl.Always = c.R.P(1, 2), c.R.P(2, 5)
 	srcArg, dstArg, wild := c15Args(c.R, srcT, dstT)
+	if seqMode {
+		srcArg, dstArg, wild = c15SeqArgs(c.R, srcT, dstT, srcArg, dstArg)
+	}
 	fl.Wild = wild
 
 	sample := map[string]any{"src_tree": srcT.Lines(), "dst_tree": dstT.Lines(), "src": srcArg, "dst": dstArg, "flags": fl.String()}
@@ -691,8 +726,20 @@ func c15Run(c *core.Ctx) *core.Result {
 	}
 	if fl.Wild && strings.ContainsAny(srcArg, "*?[") {
 		r.Count("wildcard_sources", 1)
-		if len(m.Landings) > 1 {
+		if m.NMatches > 1 {
 			r.Count("wildcard_sources_with_several_matches", 1)
+		}
+		if m.SeqOntoNonDir {
+			r.Count("wildcard_onto_non_directory_modelled_as_sequence", 1)
+			if m.SeqDstMissing && m.NMatches > 1 {
+				r.Count("wildcard_several_matches_onto_missing_dst", 1)
+				if m.FirstMatchDir {
+					r.Count("wildcard_several_matches_onto_missing_dst_first_match_dir", 1)
+					if m.Any == "" && !m.Err {
+						r.Count("wildcard_several_matches_onto_missing_dst_first_match_dir_success_expected", 1)
+					}
+				}
+			}
 		}
 	}
 	for i, L := range m.Landings {
@@ -775,4 +822,82 @@ func c15Run(c *core.Ctx) *core.Result {
 		}
 	}
 	return r
+}
+
+// c15SeqArgs draws arguments for the "wildcard onto a not yet existing dst"
+// mode: a pattern with at least two matches, preferably with a directory as
+// its first match, and a destination name that does not exist (plain or
+// nested, no trailing separator - that would create it first).
+func c15SeqArgs(r *core.Rand, src, dst *tree.Tree, defSrc, defDst string) (string, string, bool) {
+	var sDirs []string
+	for _, e := range src.Entries {
+		if e.Type == tree.Dir {
+			sDirs = append(sDirs, e.Path)
+		}
+	}
+	pats := []string{"*", "?", "[a-c]*", "a*", "??", "*b", "[a-e]", "*/a", "*/*"}
+	for _, d := range sDirs {
+		pats = append(pats, d+"/*", d+"/?")
+	}
+	core.Shuffle(r, pats)
+	best, several := "", ""
+	for _, p := range pats {
+		ms, _, ok := c15Matches(src, p)
+		if !ok || len(ms) < 2 {
+			continue
+		}
+		if several == "" {
+			several = p
+		}
+		if src.Get(ms[0]).Type == tree.Dir {
+			best = p
+			break
+		}
+	}
+	if best == "" {
+		best = several
+	}
+	if best == "" {
+		return defSrc, defDst, strings.ContainsAny(defSrc, "*?[")
+	}
+	// destination: a name that does not exist, below the root or an existing
+	// real directory (no symlink on the way)
+	parents := []string{""}
+	for _, e := range dst.Entries {
+		if e.Type != tree.Dir {
+			continue
+		}
+		ok := true
+		cur := ""
+		for _, c := range strings.Split(e.Path, "/") {
+			cur = relJoin(cur, c)
+			if x := dst.Get(cur); x == nil || x.Type != tree.Dir {
+				ok = false
+			}
+		}
+		if ok {
+			parents = append(parents, e.Path)
+		}
+	}
+	par := core.Pick(r, parents)
+	name := "new"
+	for _, n := range append([]string{"new"}, c15Names...) {
+		if dst.Get(relJoin(par, n)) == nil {
+			name = n
+			if r.P(1, 2) {
+				break
+			}
+		}
+	}
+	d := relJoin(par, name)
+	if r.P(1, 3) {
+		d += "/" + core.Pick(r, []string{"n2", "a", "n2/n3"})
+	}
+	if r.P(1, 3) {
+		d = "/" + d
+	}
+	if r.P(1, 4) {
+		best = "/" + best
+	}
+	return best, d, true
 }
